@@ -1,12 +1,14 @@
 (** C19 — "The NodeHost API facade is transparent and hands out the right session kind".
     Property theorems only; model in theories/Facade.v, proofs in proofs/FacadeProofs.v.
 
-    Strength: full in the model. The model describes the REPAIRED session-kind lookup
-    (corpus/C19/fix-session-kind.diff); on the unrepaired tree the correspondence check reports
-    the violation with a concrete replay (corpus/C19/finding-session-kind.txt).
-    Modelled: hosting configuration, session-kind cache + fill loop (ShardInfoList in any order),
-    session conversions (all four fields), the error->code table, Propose/Read/GetSession/
-    CloseSession as wrappers around the local dragonboat call (a parameter of the theorems).
+    Strength: full in the model. The model describes the REPAIRED code: no session-kind cache,
+    every GetSession reads the NodeHost's shard list (repairs 6bfc28f, corpus/C19/fix-session-kind.diff,
+    and 6156851, corpus/C19/stale-after-rehost-witnesses.txt); on an unrepaired tree the correspondence
+    check reports the violation with a concrete replay.
+    Modelled: hosting configuration incl. shards that are stopped and hosted again with another type,
+    the lookup loop over ShardInfoList (in any order), session conversions (all four fields), the
+    error->code table, Propose/Read/GetSession/CloseSession as wrappers around the local dragonboat call
+    (a parameter of the theorems).
     Not modelled (exercised by the harness only = testing): Raft and the state machines behind the
     local call, the gRPC transport, context deadlines, a NodeHost closed under the facade,
     Result.Data of a proposal (the wire type carries only Result.Value). *)
@@ -15,12 +17,13 @@ From Drummer.Model Require Import Base Facade.
 From Drummer.Proofs Require Import FacadeProofs.
 
 (** ** Right session kind.
-    [reachable st]: any number of shards of any types started in any order on the NodeHost,
-    interleaved in any way with any sequence of GetSession calls for hosted and non-hosted shard
-    ids (so the cache is in ANY state it can get into), each call seeing the hosted shards in an
-    arbitrary order [il] (dragonboat's map iteration order). The next call for shard [s] then
-    returns a tracked session iff [s] is hosted with a type other than on-disk, a no-op session
-    iff [s] is hosted on-disk, and an error iff [s] is not hosted. *)
+    [reachable st]: any number of shards of any types started in any order on the NodeHost, stopped
+    and started again (as a new replica of ANY type) any number of times, interleaved in any way
+    with any sequence of GetSession calls for hosted and non-hosted shard ids, each call seeing the
+    hosted shards in an arbitrary order [il] (dragonboat's map iteration order). The next call for
+    shard [s] then returns a tracked session iff [s] is hosted NOW with a type other than on-disk,
+    a no-op session iff [s] is hosted now on-disk, and an error iff [s] is not hosted now -
+    whatever [s] ran as before and whatever was asked before. *)
 Theorem C19_kind : forall st, reachable st ->
   forall il s, Permutation il (hosted st) ->
     match hosted_type (hosted st) s with
@@ -32,10 +35,21 @@ Proof. exact kind_full. Qed.
 Print Assumptions C19_kind.
 
 (** the executable run of the model (used by the correspondence check) answers every query of
-    every event sequence as the cache-free specification does *)
+    every event sequence - starts, stops, re-hosts, queries - as the specification does *)
 Theorem C19_kind_run : forall evs, run evs = spec_run [] evs.
 Proof. exact run_spec. Qed.
 Print Assumptions C19_kind_run.
+
+(** stop and re-host spelled out (corollaries of [C19_kind]; the scenario class of the repaired
+    defect C19-stale-kind-after-rehost): in any reachable state, after StopShard(s) the next
+    GetSession(s) is an error, and after a re-host of [s] with type [t] it is the kind [t] needs *)
+Theorem C19_kind_rehost : forall st, reachable st ->
+  (forall s il, Permutation il (hosted (stop_shard st s)) ->
+     fst (query (stop_shard st s) il s) = QErr) /\
+  (forall s t il, Permutation il (hosted (start_shard (stop_shard st s) s t)) ->
+     fst (query (start_shard (stop_shard st s) s t) il s) = QKind (kind_of_type t)).
+Proof. intros st R. exact (conj (kind_after_stop st R) (kind_after_rehost st R)). Qed.
+Print Assumptions C19_kind_rehost.
 
 (** "whatever else the NodeHost runs and in whatever order shards were started": two facade
     objects in arbitrary reachable states, on NodeHosts that agree on shard [s] (same type, or both
@@ -156,26 +170,50 @@ Proof. vm_compute. reflexivity. Qed.
 Example C19_ex_reachable : reachable (snd (run_from finit ex_events)).
 Proof. apply run_from_reachable. apply R_init. Qed.
 
-(** in that state the cache holds entries (so the cache-hit path of the theorem is exercised),
-    all three types are hosted, and an info list in another order gives the same answers *)
+(** in that state all three types are hosted, and an info list in another order gives the same
+    answers *)
 Example C19_ex_state :
   let st := snd (run_from finit ex_events) in
   hosted st = [(2, OnDisk); (1, Regular); (3, Concurrent)] /\
-  fcache st !! 1 = Some true /\ fcache st !! 2 = Some false /\ fcache st !! 3 = Some true /\
-  fcache st !! 9 = None /\
-  map (fun s => fst (query (mkF (hosted st) ∅) [(3, Concurrent); (2, OnDisk); (1, Regular)] s)) [1; 2; 3; 9]
+  map (fun s => fst (query st [(3, Concurrent); (2, OnDisk); (1, Regular)] s)) [1; 2; 3; 9]
     = [QKind Tracked; QKind NoOp; QKind Tracked; QErr].
 Proof. vm_compute. repeat split; reflexivity. Qed.
 
-(** the unrepaired loop (assign from every hosted shard, last one wins) is NOT this model: with
-    the info list [(1,Regular); (2,OnDisk)] it would answer no-op for shard 1 and for shard 9 *)
+(** stop and re-host, regression Examples for the repaired defect C19-stale-kind-after-rehost
+    (witnesses a, b, c of corpus/C19/stale-after-rehost-witnesses.txt; with the never-invalidated
+    cache of the old code the last answers were tracked (then a panic), no-op, no-op):
+    a: asked for as a regular shard, stopped, hosted again on-disk, asked for again -> no-op;
+    b: asked for as an on-disk shard, stopped, hosted again as a regular shard, asked again -> tracked;
+    c: asked for as an on-disk shard, stopped, asked for again while not hosted -> error *)
+Definition ex_rehost_a : list event := [EStart 1 Regular; EQuery 1; EStop 1; EStart 1 OnDisk; EQuery 1].
+Definition ex_rehost_b : list event := [EStart 1 OnDisk; EQuery 1; EStop 1; EStart 1 Regular; EQuery 1].
+Definition ex_rehost_c : list event := [EStart 1 OnDisk; EQuery 1; EStop 1; EQuery 1].
+
+Example C19_ex_stale_after_rehost :
+  run ex_rehost_a = [QKind Tracked; QKind NoOp] /\
+  run ex_rehost_b = [QKind NoOp; QKind Tracked] /\
+  run ex_rehost_c = [QKind NoOp; QErr].
+Proof. vm_compute. repeat split; reflexivity. Qed.
+
+(** a NodeHost with two shards, queries about the other shard in between (the seeded change
+    C19-r2-m1: a cache filled for every listed shard would answer no-op for shard 2 at the end) *)
+Example C19_ex_rehost_never_asked :
+  run [EStart 1 Regular; EStart 2 OnDisk; EQuery 1; EStop 2; EStart 2 Regular; EQuery 2; EQuery 1]
+  = [QKind Tracked; QKind Tracked; QKind Tracked].
+Proof. vm_compute. reflexivity. Qed.
+
+Example C19_ex_rehost_reachable : reachable (snd (run_from finit (ex_rehost_a ++ ex_rehost_b))).
+Proof. apply run_from_reachable. apply R_init. Qed.
+
+(** the two unrepaired lookups are NOT this model: assigning from every listed shard (last one
+    wins) answers no-op for shard 1 and for the non-hosted shard 9 *)
 Example C19_ex_defect_witness :
-  let buggy_fill (s : N) (il : hosting) (c : cache) : cache :=
-      fold_left (fun c ci => <[s := negb (is_ondisk (snd ci))]> c) il c in
-  buggy_fill 1 [(1, Regular); (2, OnDisk)] ∅ !! 1 = Some false /\
-  buggy_fill 9 [(1, Regular); (2, OnDisk)] ∅ !! 9 = Some false /\
-  fill 1 [(1, Regular); (2, OnDisk)] ∅ !! 1 = Some true /\
-  fill 9 [(1, Regular); (2, OnDisk)] ∅ !! 9 = None.
+  let buggy (s : N) (il : hosting) : option bool :=
+      fold_left (fun _ ci => Some (negb (is_ondisk (snd ci)))) il None in
+  buggy 1 [(1, Regular); (2, OnDisk)] = Some false /\
+  buggy 9 [(1, Regular); (2, OnDisk)] = Some false /\
+  support_regular [(1, Regular); (2, OnDisk)] 1 = Some true /\
+  support_regular [(1, Regular); (2, OnDisk)] 9 = None.
 Proof. vm_compute. repeat split; reflexivity. Qed.
 
 (** sessions: all-distinct field values survive, and the no-op test looks at the series id *)
